@@ -215,3 +215,80 @@ def parsed_ns_ok(ci: int, mi: int) -> bool:
             exp = expf(m)
             ok = ok and sorted(ids) == sorted(exp)
     return ret(ok)
+
+
+# ---------------------------------------------------------------------------------------------
+# A non-XHTML XML document mixing four namespaces (and none), queried with compound selectors that combine namespace
+# tests with pseudo-classes that are HTML-only (they match nothing here, their negation everything) and with lists whose
+# members have no type selector.
+MIXED = bs4.BeautifulSoup(
+    '<r xmlns="urn:i" xmlns:h="http://www.w3.org/1999/xhtml" xmlns:o="urn:o" id="r">'
+    '<item id="a1" class="hit" k="1"/><item id="a2" class="other"/><o:item id="b1" class="hit"/>'
+    '<o:thing id="b2" class="other" k="2"/><h:div id="h1" class="hit"><h:input id="h2" disabled="" class="other"/>'
+    '<h:input id="h3" type="checkbox" checked="" k="3"/></h:div><plain xmlns="" id="n1" class="hit"/></r>', 'xml')
+MIXED_ELS = [e for e in MIXED.descendants if isinstance(e, bs4.Tag)]
+MIXED_MAPS = [None, {'i': 'urn:i'}, {'i': 'urn:i', 'o': 'urn:o'}, {'': 'urn:i'}, {'': 'urn:o', 'i': 'urn:i'},
+              {'': XHTML, 'i': 'urn:o'}, {'html': 'urn:o'}, {'h': XHTML, '': ''}]
+
+
+def _ns(e):
+    return e.namespace or ''
+
+
+def _cls(e, c):
+    return c in (e.get('class') or '').split()
+
+
+def _pref(m, p, e):
+    return m is not None and p in m and m[p] == _ns(e)
+
+
+def _dflt(m, e):
+    """An implied (or bare-name) universal at top level: restricted to the default namespace when the map has one."""
+    return m is None or '' not in m or m[''] == _ns(e)
+
+
+MIXED_CASES = [
+    ('i|item:not(:disabled)', lambda e, m: _pref(m, 'i', e) and e.name == 'item'),
+    (':checked, i|item', lambda e, m: _pref(m, 'i', e) and e.name == 'item'),
+    ('i|item, :checked', lambda e, m: _pref(m, 'i', e) and e.name == 'item'),
+    ('*|*:not(:checked):is(i|item, o|item)', lambda e, m: e.name == 'item' and (_pref(m, 'i', e) or _pref(m, 'o', e))),
+    ('html|div', lambda e, m: _pref(m, 'html', e) and e.name == 'div'),
+    ('*|*:not(:enabled) > html|input', lambda e, m: _pref(m, 'html', e) and e.name == 'input'),
+    ('*|*:not(:default) html|*', lambda e, m: _pref(m, 'html', e) and e.get('id') != 'r'),
+    (':not(:link), h|div', lambda e, m: _dflt(m, e) or (_pref(m, 'h', e) and e.name == 'div')),
+    ('.hit, .other', lambda e, m: _dflt(m, e) and (_cls(e, 'hit') or _cls(e, 'other'))),
+    ('.other, .hit', lambda e, m: _dflt(m, e) and (_cls(e, 'hit') or _cls(e, 'other'))),
+    ('#b1, #a2, #n1', lambda e, m: _dflt(m, e) and e.get('id') in ('b1', 'a2', 'n1')),
+    ('[k], i|item', lambda e, m: (_dflt(m, e) and e.get('k') is not None) or (_pref(m, 'i', e) and e.name == 'item')),
+    ('i|item, [k]', lambda e, m: (_dflt(m, e) and e.get('k') is not None) or (_pref(m, 'i', e) and e.name == 'item')),
+    (':is(.hit, .other)', lambda e, m: _dflt(m, e) and (_cls(e, 'hit') or _cls(e, 'other'))),
+    (':not(.hit)', lambda e, m: _dflt(m, e) and not _cls(e, 'hit')),
+    ('.hit, *|*.other', lambda e, m: (_dflt(m, e) and _cls(e, 'hit')) or _cls(e, 'other')),
+    ('*|*.other, .hit, |plain', lambda e, m: (_dflt(m, e) and _cls(e, 'hit')) or _cls(e, 'other') or (e.name == 'plain' and _ns(e) == '')),
+    (':empty, :root', lambda e, m: _dflt(m, e) and (e.get('id') == 'r' or not e.contents)),
+    ('item, thing', lambda e, m: _dflt(m, e) and e.name in ('item', 'thing')),
+    ('*|item:not(:required, o|item)', lambda e, m: e.name == 'item' and not _pref(m, 'o', e)),
+]
+
+
+def mixed_ns_ok(ci: int, mi: int, how: int) -> bool:
+    """
+    pre: 0 <= ci < len(MIXED_CASES)
+    pre: 0 <= mi < len(MIXED_MAPS)
+    pre: 0 <= how < 3
+    post: _
+    """
+    ci, mi, how = concrete(ci), concrete(mi), concrete(how)
+    with notrace():
+        text, pred = MIXED_CASES[ci]
+        m = MIXED_MAPS[mi]
+        exp = [e.get('id') for e in MIXED_ELS if pred(e, m)]
+        c = sv.compile(text, namespaces=m)
+        if how == 0:
+            got = [e.get('id') for e in c.select(MIXED)]
+        elif how == 1:
+            got = [e.get('id') for e in MIXED_ELS if c.match(e)]
+        else:
+            got = [e.get('id') for e in c.filter(MIXED_ELS)]
+    return ret(got == exp)
